@@ -119,6 +119,7 @@ package keeper
 //@ requires has_price: len(pricingOf(raw, binding.ServiceName, binding.Provider).Price) >= 1
 //@ ensures [C07,C01] charged_price_is_the_fee: err == NoErr && pricingOf(raw, binding.ServiceName, binding.Provider).Price[0].Denom == baseDenom
 //@      ==> result0 == priceCoins(raw, ctxTime(ctx), consumer, binding.ServiceName, binding.Provider)
+//@ ensures [C11] no_error_in_base_denom: pricingOf(raw, binding.ServiceName, binding.Provider).Price[0].Denom == baseDenom ==> err == NoErr
 
 // ---------------------------------------------------------------- request-context lifecycle (C09, C05, C10, C11)
 //@ func (Keeper).CheckAuthority
@@ -309,3 +310,55 @@ package keeper
 //@       k != KVol(reqConsumer(old(raw), requestID), reqSvc(old(raw), requestID), provider) && k != KCtx(reqCtxId(old(raw), requestID)) &&
 //@       k != KBind(reqSvc(old(raw), requestID), reqProv(old(raw), requestID)) && !(is_KEarned(k) && kea_prov(k) == provider) && k != KOwnerEarned(ownerOf(old(raw), provider)))
 //@      ==> raw[k] == old(raw)[k])
+
+// ---------------------------------------------------------------- issuing a batch (C06, C01, C08, C12)
+//@ func (Keeper).FilterServiceProviders
+//@ props C06 C01
+//@ requires wf: WF(raw)
+//@ loop 0 invariant seen: 0 <= iter && iter <= len(providers)
+//@ loop 0 invariant filtered_so_far: allBase(raw, serviceName, providers) ==> newProviders == filtIt(raw, ctxTime(ctx), serviceName, timeout, serviceFeeCap, consumer, providers, iter)
+//@ loop 0 invariant total_so_far: allBase(raw, serviceName, providers) ==> totalPrices == totIt(raw, ctxTime(ctx), serviceName, timeout, serviceFeeCap, consumer, providers, iter)
+//@ ensures [C06] exactly_the_eligible_providers_in_order: err == NoErr && allBase(raw, serviceName, providers) ==>
+//@      result0 == filtIt(raw, ctxTime(ctx), serviceName, timeout, serviceFeeCap, consumer, providers, len(providers))
+//@ ensures [C06,C01] total_is_the_sum_of_their_prices: err == NoErr && allBase(raw, serviceName, providers) ==>
+//@      result1 == totIt(raw, ctxTime(ctx), serviceName, timeout, serviceFeeCap, consumer, providers, len(providers))
+//@ ensures [C11] no_error_when_prices_are_in_base_denom: allBase(raw, serviceName, providers) ==> err == NoErr
+
+//@ func (Keeper).buildRequest
+//@ props C08 C07 C01
+//@ requires wf: WF(raw)
+//@ ensures [C08] expiry_is_issue_height_plus_timeout: result.RequestHeight == ctxHeight(ctx) && result.ExpirationHeight == wrap_i64(ctxHeight(ctx) + timeout)
+//@ ensures [C07] super_mode_is_free: superMode ==> result.ServiceFee == noCoins
+//@ ensures [C07,C01] fee_is_the_published_price: !superMode && bindFound(raw, serviceName, provider) ==> result.ServiceFee == priceCoins(raw, ctxTime(ctx), consumer, serviceName, provider)
+//@ ensures identity_fields: result.RequestContextId == requestContextID && result.RequestContextBatchCounter == batchCounter && result.Provider == provider
+
+//@ func (Keeper).InitiateRequests
+//@ props C01 C08 C12 C18 C09 C16
+//@ modifies raw
+//@ requires wf: WF(raw)
+//@ requires context_exists: ctxFound(raw, requestContextID) && rng_RequestContext(ctxOf(raw, requestContextID))
+//@ requires bindings_exist: forall i Int :: {providers[i]} 0 <= i && i < len(providers) ==> bindFound(raw, ctxOf(raw, requestContextID).ServiceName, providers[i])
+//@ requires [C18] index_fits: len(providers) <= 32767
+//@ loop 0 invariant seen: 0 <= iter && iter <= len(providers)
+//@ loop 0 invariant [C01,C08,C18] issued_so_far: raw == issueIt(old(raw), ctxTime(ctx), ctxHeight(ctx), requestContextID, ctxOf(old(raw), requestContextID),
+//@      wrap_u64(ctxOf(old(raw), requestContextID).BatchCounter + 1), providers, iter)
+//@ loop 0 invariant [C18] event_order_is_id_order: len(requests) == iter && len(requestIDs) == iter
+//@ ensures [C01,C08,C18] one_request_per_provider_with_its_price_and_markers: (let c := ctxOf(old(raw), requestContextID) in
+//@      raw == issueIt(old(raw), ctxTime(ctx), ctxHeight(ctx), requestContextID, c, wrap_u64(c.BatchCounter + 1), providers, len(providers))
+//@             [KCtx(requestContextID) := enc_RequestContext(c[BatchCounter := wrap_u64(c.BatchCounter + 1)][BatchState := BATCHRUNNING][BatchResponseCount := 0]
+//@                  [BatchRequestCount := wrap_u32(len(providers))][BatchResponseThreshold := c.ResponseThreshold])])
+//@ ensures [C18] ids_in_issue_order: len(result) == len(providers)
+
+//@ func (Keeper).SkipCurrentRequestBatch
+//@ props C06 C09 C11 C12
+//@ modifies raw
+//@ ensures [C06,C09,C11] counter_advances_no_requests_expiry_scheduled: raw == old(raw)
+//@      [KCtx(requestContextID) := enc_RequestContext(requestContext[BatchCounter := wrap_u64(requestContext.BatchCounter + 1)][BatchState := BATCHRUNNING][BatchRequestCount := 0][BatchResponseCount := 0][BatchResponseThreshold := requestContext.ResponseThreshold])]
+//@      [KExpQ(wrap_i64(ctxHeight(ctx) + requestContext.Timeout), requestContextID) := idVal(requestContextID)]
+//@      [KExpH(requestContextID) := hVal(wrap_i64(ctxHeight(ctx) + requestContext.Timeout))]
+
+//@ func (Keeper).OnRequestContextPaused
+//@ props C09 C12 C06
+//@ modifies raw, cblog
+//@ ensures [C09] context_paused_batch_completed: raw == old(raw)[KCtx(requestContextID) := enc_RequestContext(requestContext[BatchState := BATCHCOMPLETED][State := PAUSED])]
+//@ ensures [C12] state_callback_for_module_contexts: cblog == (len(requestContext.ModuleName) > 0 ? cbState(old(cblog), requestContextID, cause) : old(cblog))
